@@ -33,9 +33,10 @@ MODELS = [
         M(a=I(4), boom=NUL()),
         M(a=I(4), boom2=NUL()),
     ]),
-    ('uni', Z.Uni, [Z.Uni, Z.Sub], [
+    ('uni', Z.Uni, [Z.Uni, Z.Sub, Z.Color], [
         M(a=I(1), b=F(1.5), c=B(True), d=M(x=I(1))),
-        M(a=S('s'), c=I(3), d=Q(I(1), I(2))),
+        M(a=S('s'), c=I(3), d=Q(I(1), I(2)), e=S('red')),
+        M(a=I(1), e=B(True)),       # bool or the enum member "true"?
     ]),
     ('coll', Z.Coll, [Z.Coll, Z.Sub], [
         M(a=Q(I(1)), b=M(k=F(1.5)), c=Q(M(x=I(1)))),
@@ -73,6 +74,10 @@ MODELS = [
         M(paths=Q(S('tmp')), names=Q(S('a')), m1=M(k=S('x')),
           m2=M(k=S('v'))),
     ]),
+    ('req4', Z.Outer4, [Z.Outer4, Z.Req4], [
+        M(first=I(0), r=M(a=I(1), b=I(2), c=I(3), d=I(4), e=I(5)),
+          last=I(9)),
+    ]),
     ('order', Z.Order, [Z.Order, Z.Item], [
         M(('customer-name', S('x')),
           ('items', M(i1=F(1.5), i2=M(price=F(2.5), description=S('d')))),
@@ -94,7 +99,7 @@ MODELS = [
     ]),
 ]
 CORE = {m[0] for m in MODELS if not m[0].startswith('trap_')
-        and m[0] not in ('order', 'typed')}
+        and m[0] not in ('order', 'typed', 'req4')}
 GROUP_C02 = (CORE - {'perm'}) | {'order'}
 GROUP_C04 = {'trap_loose', 'trap_any', 'trap_dict', 'trap_typed', 'loose',
              'top_any'}
@@ -317,6 +322,7 @@ def mutated(mi: int, bi: int, site: int, mut: int, rsel: int, tag: str,
         node.value = pick(VALS, vsel)
     else:
         return None
+    docs.layout(b.root)
     return b
 
 
